@@ -130,6 +130,7 @@ structure DS where
   sm : State := State.init                 -- model state (compacted)
   pending : Option (Res State) := none     -- model's answer to the current op
   lastOp : String := ""
+  stepNo : Nat := 0                        -- index of the current op within the case
   lastAt : String := ""
   postOk : Bool := true
   -- dump being read
@@ -247,7 +248,7 @@ def finishDump (d : DS) : IO DS := do
       | _ => d.sm
     let mr := render (tabulate sm')
     if mr != d.raw then
-      IO.println s!"DIFF case={d.caseId} op=[{d.lastOp}] {firstDiff mr d.raw}"
+      IO.println s!"DIFF case={d.caseId} step={d.stepNo} op=[{d.lastOp}] {firstDiff mr d.raw}"
       -- resynchronise on the implementation
       let nid := g.nodes.foldl (fun m n => max m (n.id + 1)) sm'.nextId
       d := { d with diffs := d.diffs + 1, sm := { si with nextId := nid } }
@@ -262,7 +263,7 @@ def finishDump (d : DS) : IO DS := do
     d := { d with typeChecked := d.typeChecked + n, tkinds := tk }
     if !tv.isEmpty then bad := bad ++ ["types:" ++ ";".intercalate (tv.take 5)]
   if !bad.isEmpty then
-    IO.println s!"PROPFAIL case={d.caseId} variant={d.variant} at={d.lastAt} op=[{d.lastOp}] violated={",".intercalate bad}"
+    IO.println s!"PROPFAIL case={d.caseId} step={d.stepNo} variant={d.variant} at={d.lastAt} op=[{d.lastOp}] violated={",".intercalate bad}"
     d := { d with propfails := d.propfails + 1 }
   return { d with g := {}, raw := #[], kinds := #[] }
 
@@ -290,11 +291,11 @@ partial def loop (h : IO.FS.Stream) (d : DS) : IO DS := do
   | "#" :: _ => loop h d
   | "case" :: k :: mode :: rest =>
     let v := rest.headD ""
-    loop h { d with mode := mode, caseId := k, variant := v, cases := d.cases + 1, sm := State.init, pending := none, lastOp := "", lastAt := "",
+    loop h { d with mode := mode, caseId := k, variant := v, cases := d.cases + 1, sm := State.init, pending := none, lastOp := "", lastAt := "", stepNo := 0,
                     variants := if mode == "design" then bump d.variants v else d.variants }
   | ["end"] => loop h d
   | "D" :: n :: _ => loop h { d with inDump := true, g := { size := pNat n }, raw := #[ln], kinds := #[] }
-  | "at" :: w :: _ => loop h { d with lastAt := w, boundaries := bump d.boundaries w }
+  | "at" :: w :: _ => loop h { d with lastAt := w, stepNo := d.stepNo + 1, boundaries := bump d.boundaries w }
   | "post" :: w :: _ => loop h { d with res := bump d.res ("post-" ++ w) }
   | "build" :: w :: _ => loop h { d with res := bump d.res ("build-" ++ w) }
   | "op" :: rest =>
@@ -304,19 +305,19 @@ partial def loop (h : IO.FS.Stream) (d : DS) : IO DS := do
       | _ => match parseOp rest with
         | some ops => applyOps d.sm ops
         | none => .error .ub
-    loop h { d with pending := some r, lastOp := " ".intercalate rest, ops := d.ops + 1, hist := bump d.hist (rest.headD "?") }
+    loop h { d with pending := some r, lastOp := " ".intercalate rest, ops := d.ops + 1, stepNo := d.stepNo + 1, hist := bump d.hist (rest.headD "?") }
   | ["r", w] =>
     let m := match d.pending with | some r => resName r | none => "?"
     let mut d := { d with res := bump d.res w }
     if w == "skip" then
       -- the harness did not run the call because the real loop would not terminate: the model must say so
       if m != "diverge" then
-        IO.println s!"DIFF case={d.caseId} op=[{d.lastOp}] model={m} impl=would-not-terminate"
+        IO.println s!"DIFF case={d.caseId} step={d.stepNo} op=[{d.lastOp}] model={m} impl=would-not-terminate"
         d := { d with diffs := d.diffs + 1 }
       loop h { d with pending := none }
     else
       if m != w then
-        IO.println s!"DIFF case={d.caseId} op=[{d.lastOp}] outcome model={m} impl={w}"
+        IO.println s!"DIFF case={d.caseId} step={d.stepNo} op=[{d.lastOp}] outcome model={m} impl={w}"
         d := { d with diffs := d.diffs + 1 }
       loop h d
   | _ =>
